@@ -256,6 +256,7 @@ static void byteCopyCheck(Tree& tree){
             const bool deferred = (groups % 2) == 1;     // odd groups: deferred initialisation (built without reading the memory, headers read afterwards)
             typename Tree::CellGroupClass view(cp, !deferred); if(deferred) view.initMemoryBlockHeader();
             ++groups;
+            { const auto vs = view.getDataPtrsAndSizes(); for(int k = 0 ; k < 3 ; ++k){ ++values; if(vs[k].first != cp[k].first || vs[k].second != cp[k].second) ++bad; } }
             ++values; if(view.getNbCells() != g.getNbCells() || view.getStartingSpacialIndex() != g.getStartingSpacialIndex() || view.getEndingSpacialIndex() != g.getEndingSpacialIndex()) ++bad;
             for(long c = 0 ; c < g.getNbCells() ; ++c){
                 ++values; if(view.getCellSpacialIndex(c) != g.getCellSpacialIndex(c) || view.getCellBoxCoord(c) != g.getCellBoxCoord(c)) ++bad;
@@ -277,6 +278,7 @@ static void byteCopyCheck(Tree& tree){
         const bool deferred = (groups % 2) == 1;
         typename Tree::LeafGroupClass view(cp, !deferred); if(deferred) view.initMemoryBlockHeader();
         ++groups;
+        { const auto vs = view.getDataPtrsAndSizes(); for(int k = 0 ; k < 2 ; ++k){ ++values; if(vs[k].first != cp[k].first || vs[k].second != cp[k].second) ++bad; } }
         ++values; if(view.getNbLeaves() != g.getNbLeaves() || view.getNbParticles() != g.getNbParticles()) ++bad;
         for(long lf = 0 ; lf < g.getNbLeaves() ; ++lf){
             ++values; if(view.getLeafSpacialIndex(lf) != g.getLeafSpacialIndex(lf) || view.getNbParticlesInLeaf(lf) != g.getNbParticlesInLeaf(lf) || view.getLeafBoxCoord(lf) != g.getLeafBoxCoord(lf)) ++bad;
